@@ -37,6 +37,10 @@ func drawAddr(c *core.Ctx, label string, kinds ...int) tlbref.Addr {
 		a.WC = int32(int8(c.U64(label + ".wc")))
 		copy(a.Hash[:], c.Content(label+".hash", 32))
 	case 3:
+		if c.Intn(label+".vany", 4) == 0 {
+			d := c.Range(label+".vdepth", 1, 30)
+			a.Anycast = &tlbref.Anycast{Depth: d, Prefix: c.U64(label+".vpfx") & (1<<uint(d) - 1)}
+		}
 		a.Ext = ref.Bits(c.Bits(label+".var", c.OneOf(label+".vlen", 1, 64, 256, 300)))
 		a.WC = int32(c.U64(label + ".wc32"))
 	}
@@ -56,6 +60,13 @@ func smallCell(c *core.Ctx, label string, depth int) *ref.RCell {
 	if depth > 0 {
 		for i := c.Weighted(label+".refs", 5, 2, 1); i > 0; i-- {
 			refs = append(refs, smallCell(c, label+".r", depth-1))
+		}
+		if c.Intn(label+".pruned", 8) == 0 {
+			// a record taken out of a Merkle proof: a pruned branch below it, so the cell has level 1 and its
+			// representation hash is not its level-0 hash
+			pb := ref.Bits{}.AppendUint(1, 8).AppendUint(1, 8).AppendBytes(c.Content(label+".pruned.hash", 32)).AppendUint(uint64(c.Intn(label+".pruned.depth", 100)), 16)
+			refs = append(refs, ref.NewRCell(pb, true))
+			c.Class("record with a pruned branch below it (level 1)")
 		}
 	}
 	return ref.NewRCell(ref.Bits(c.Bits(label+".data", n)), false, refs...)
@@ -95,8 +106,26 @@ func decodeAllWays(cell *ref.RCell, shared *tlb.Decoder) (plain, cached, reused 
 		if e != nil {
 			return plain, cached, reused, fmt.Errorf("decoding a schema-conforming message failed (way %d): %v", i, e)
 		}
+		if i == 2 {
+			// the same cell object met a second time by the same decoder (its hasher has seen every cell of it)
+			resetTree(cells[0])
+			var again tlb.Message
+			if e := shared.Unmarshal(cells[0], &again); e != nil {
+				return plain, cached, reused, fmt.Errorf("decoding the same message cell a second time with the same decoder failed: %v", e)
+			}
+			if a, b := again.Hash(false), reused.Hash(false); a != b {
+				return plain, cached, reused, fmt.Errorf("the same message cell decoded twice by one decoder: Hash(false) %x the first time, %x the second time (cell hash %x)", b, a, cell.ReprHash())
+			}
+		}
 	}
 	return
+}
+
+func resetTree(c *boc.Cell) {
+	c.ResetCounters()
+	for _, r := range c.Refs() {
+		resetTree(r)
+	}
 }
 
 var sharedDecoder = tlb.NewDecoder()
@@ -170,6 +199,13 @@ var messageCheck = &core.Check{Name: "c16/message", Quick: 3000, Thorough: 25000
 	// standard destinations without anycast and variable-length destinations are kept as they are by the
 	// canonical form (anycast of a standard destination is dropped by the library: compared by class only)
 	exact := (m.Info.Dest.Kind == 2 && m.Info.Dest.Anycast == nil) || m.Info.Dest.Kind == 3
+	if exact && m.Body.Level() > 0 {
+		// a body with a pruned branch below it: the library hashes the re-encoding it builds in memory at level 0
+		// (the hash the unpruned message would have); which of the two hashes "the" normalised hash of a partly
+		// pruned message is, the property does not say - not judged, only the class rules below
+		exact = false
+		c.Class("canonical form of a partly pruned message not compared")
+	}
 	if exact {
 		cc, _ := msgCell(canonical)
 		if !bytes.Equal(norm[:], cc.ReprHash()) {
@@ -364,7 +400,7 @@ func reuseVariable(c *core.Ctx, m tlbref.Message, cell *ref.RCell, fresh *tlb.Me
 		hdr := m
 		hdr.Body = ref.NewRCell(nil, false)
 		hdr.BodyInRef = false
-		if hc, fits := msgCell(hdr); fits && hc.BitLen >= 1 && len(hc.Refs) <= 3 {
+		if hc, fits := msgCell(hdr); fits && hc.BitLen >= 1 && len(hc.Refs) <= 3 && hc.Level() == 0 {
 			body, err := gen.ToTongo(m.Body, true, 10)
 			if err != nil {
 				return fmt.Errorf("HARNESS: %v", err)
